@@ -115,8 +115,8 @@ theorem applyAll_snoc (s : Store) (ws : List SW) (w : SW) : s.applyAll (ws ++ [w
   simp [Store.applyAll]
 
 /-- after a loop that wrote at all, the persisted watermark is the one in memory -/
-theorem LoopInv.getMeta_last {d : Bool} {a0 : ANode} {items0 : List Item} {a : ANode} {rem : List Item} {ws : List SW}
-    {pre : List Item} (h : LoopInv d a0 items0 a rem ws pre)
+theorem IterInv.getMeta_last {d : Bool} {a0 : ANode} {items0 : List Item} {a : ANode} {ws : List SW}
+    (h : IterInv d a0 items0 a ws)
     (h1 : ws.getLast? = some (SW.setMeta (wmKey d) (le64 (wm d a)))) :
     a.n.store.getMeta (wmKey d) = some (le64 (wm d a)) := by
   obtain ⟨ws', rfl⟩ : ∃ ws', ws = ws' ++ [SW.setMeta (wmKey d) (le64 (wm d a))] := by
@@ -135,8 +135,8 @@ theorem LoopInv.getMeta_last {d : Bool} {a0 : ANode} {items0 : List Item} {a : A
   simp [Store.apply, Store.getMeta]
 
 /-- the writes of a submission loop touch no other metadata key -/
-theorem LoopInv.getMeta_other {d : Bool} {a0 : ANode} {items0 : List Item} {a : ANode} {rem : List Item} {ws : List SW}
-    {pre : List Item} (h : LoopInv d a0 items0 a rem ws pre) (k : String) (hk : wmKey d ≠ k) :
+theorem IterInv.getMeta_other {d : Bool} {a0 : ANode} {items0 : List Item} {a : ANode} {ws : List SW}
+    (h : IterInv d a0 items0 a ws) (k : String) (hk : wmKey d ≠ k) :
     a.n.store.getMeta k = a0.n.store.getMeta k := by
   rw [h.store]
   apply getMeta_applyAll_other
@@ -147,8 +147,8 @@ theorem LoopInv.getMeta_other {d : Bool} {a0 : ANode} {items0 : List Item} {a : 
     injection he
   rw [← this]; exact hk
 
-theorem LoopInv.persisted {d : Bool} {a0 : ANode} {items0 : List Item} {a : ANode} {rem : List Item} {ws : List SW}
-    {pre : List Item} (h : LoopInv d a0 items0 a rem ws pre) (hp : Persisted d a0) : Persisted d a := by
+theorem IterInv.persisted {d : Bool} {a0 : ANode} {items0 : List Item} {a : ANode} {ws : List SW}
+    (h : IterInv d a0 items0 a ws) (hp : Persisted d a0) : Persisted d a := by
   rcases h.lastWrite with ⟨h1, h2⟩ | h1
   · have hs := h.store
     rw [h1] at hs
@@ -157,8 +157,8 @@ theorem LoopInv.persisted {d : Bool} {a0 : ANode} {items0 : List Item} {a : ANod
   · exact Or.inl (h.getMeta_last h1)
 
 /-- the writes of a submission loop of one kind never touch the other kind's key -/
-theorem LoopInv.persisted_other {d : Bool} {a0 : ANode} {items0 : List Item} {a : ANode} {rem : List Item} {ws : List SW}
-    {pre : List Item} (h : LoopInv d a0 items0 a rem ws pre) (hp : Persisted (!d) a0) : Persisted (!d) a := by
+theorem IterInv.persisted_other {d : Bool} {a0 : ANode} {items0 : List Item} {a : ANode} {ws : List SW}
+    (h : IterInv d a0 items0 a ws) (hp : Persisted (!d) a0) : Persisted (!d) a := by
   have hk : wmKey d ≠ wmKey (!d) := by cases d <;> decide
   unfold Persisted
   rw [h.getMeta_other _ hk, h.frame.otherWm]; exact hp
@@ -316,44 +316,77 @@ theorem restart_wm {c : Cfg} {a a' : ANode} {clean : Bool} (h : restart c a a.n.
 theorem dataIter_wm_le (a : ANode) (script : List DAAns) (hok : DataOK a.n.store a.n.dataWm)
     (hle : a.n.dataWm ≤ a.n.store.height) :
     (dataIter a script).1.n.dataWm ≤ (dataIter a script).1.n.store.height := by
-  obtain ⟨items, rem, pre, hi, hmem⟩ := dataIter_inv a script
-  rw [hi.frame.height]
-  rcases hi.wmFrom with e | ⟨l, hl, e⟩
-  · have e' : (dataIter a script).1.n.dataWm = a.n.dataWm := e
-    omega
-  · have e' : (dataIter a script).1.n.dataWm = l.height := e
-    obtain ⟨k, b, k1, k2, hb, hne, rfl⟩ := hmem l (by rw [hi.split]; exact List.mem_append_left _ hl)
-    obtain ⟨b', hb', hh⟩ := hok k k1 k2
+  rcases dataIter_cases a script with ⟨h, _⟩ | ⟨h, _⟩ | ⟨bs, hlt, hbs, _, h⟩ | ⟨bs, hlt, hbs, _, h⟩
+  · rw [h]; exact hle
+  · rw [h]; exact hle
+  · rw [h]
+    obtain ⟨b, _, hb, hd⟩ := pendingBlocks_last hbs hlt
+    obtain ⟨b', hb', hh⟩ := hok _ hlt (Nat.le_refl _)
     rw [hb] at hb'
     have : b = b' := by simpa using hb'
     subst this
-    have : dataHeight b = k := hh hne
-    rw [e']; show dataHeight b ≤ _; omega
+    have h7 := (raiseWm_spec a true (lastDH bs)).2.2.2.2.2.2.1
+    have hf := (raiseWm_frame a true (lastDH bs)).height
+    show (raiseWm a true (lastDH bs)).1.n.dataWm ≤ (raiseWm a true (lastDH bs)).1.n.store.height
+    have h7' : (raiseWm a true (lastDH bs)).1.n.dataWm = max a.n.dataWm (lastDH bs) := h7
+    rw [h7', hf, hd, hh]; omega
+  · rw [h]
+    obtain ⟨rem, pre, hi, _⟩ := submitLoop_loopInv true maxSubmitAttempts a (dataItems bs) script []
+    simp only [iterOf]
+    rw [hi.frame.height]
+    rcases hi.wmFrom with e | ⟨l, hl, e⟩
+    · have e' : (submitLoop true maxSubmitAttempts a (dataItems bs) script [] []).1.n.dataWm = a.n.dataWm := e
+      omega
+    · have e' : (submitLoop true maxSubmitAttempts a (dataItems bs) script [] []).1.n.dataWm = l.height := e
+      obtain ⟨k, b, k1, k2, hb, hne, rfl⟩ := dataItems_mem hbs l (by rw [hi.split]; exact List.mem_append_left _ hl)
+      obtain ⟨b', hb', hh⟩ := hok k k1 k2
+      rw [hb] at hb'
+      have : b = b' := by simpa using hb'
+      subst this
+      rw [e']; show dataHeight b ≤ _; omega
 
-/-- … for every node satisfying the producer's invariant, without a hypothesis on the data metadata: a committed block's
-data metadata, when present, carries the block's height (`Linked.metaOK`), and an item without metadata has height 0 -/
+/-- a committed block's data metadata, when present, carries the block's height (`Linked.metaOK`); without metadata the
+height it reports is 0 -/
+theorem dataHeight_le_of_inv {c : Cfg} {n : Node} (hinv : Inv c n) {k : Nat} {b : Block} (k1 : c.initialHeight ≤ k)
+    (k2 : k ≤ n.store.height) (hb : n.store.getBlock k = some b) : dataHeight b ≤ k := by
+  obtain ⟨b', hb', hl'⟩ := hinv.chain k k1 k2
+  rw [hb] at hb'
+  have : b = b' := by simpa using hb'
+  subst this
+  unfold dataHeight
+  cases hm : b.data.metadata with
+  | none => simp
+  | some m =>
+    have h1 := (hl'.metaOK m hm).2.1
+    have h2 := hl'.height
+    simp only [Option.map_some, Option.getD_some]
+    omega
+
+/-- … for every node satisfying the producer's invariant, without a hypothesis on the data metadata -/
 theorem dataIter_wm_le_inv {c : Cfg} (a : ANode) (script : List DAAns) (hinv : Inv c a.n)
     (hlow : c.initialHeight ≤ a.n.dataWm + 1) (hle : a.n.dataWm ≤ a.n.store.height) :
     (dataIter a script).1.n.dataWm ≤ (dataIter a script).1.n.store.height := by
-  obtain ⟨items, rem, pre, hi, hmem⟩ := dataIter_inv a script
-  rw [hi.frame.height]
-  rcases hi.wmFrom with e | ⟨l, hl, e⟩
-  · have e' : (dataIter a script).1.n.dataWm = a.n.dataWm := e
-    omega
-  · have e' : (dataIter a script).1.n.dataWm = l.height := e
-    obtain ⟨k, b, k1, k2, hb, hne, rfl⟩ := hmem l (by rw [hi.split]; exact List.mem_append_left _ hl)
-    obtain ⟨b', hb', hl'⟩ := hinv.chain k (by omega) k2
-    rw [hb] at hb'
-    have : b = b' := by simpa using hb'
-    subst this
-    rw [e']; show dataHeight b ≤ _
-    unfold dataHeight
-    cases hm : b.data.metadata with
-    | none => simp
-    | some m =>
-      have h1 := (hl'.metaOK m hm).2.1
-      have h2 := hl'.height
-      simp only [Option.map_some, Option.getD_some]
+  rcases dataIter_cases a script with ⟨h, _⟩ | ⟨h, _⟩ | ⟨bs, hlt, hbs, _, h⟩ | ⟨bs, hlt, hbs, _, h⟩
+  · rw [h]; exact hle
+  · rw [h]; exact hle
+  · rw [h]
+    obtain ⟨b, _, hb, hd⟩ := pendingBlocks_last hbs hlt
+    have hdl := dataHeight_le_of_inv hinv (by omega) (Nat.le_refl _) hb
+    have h7 := (raiseWm_spec a true (lastDH bs)).2.2.2.2.2.2.1
+    have hf := (raiseWm_frame a true (lastDH bs)).height
+    show (raiseWm a true (lastDH bs)).1.n.dataWm ≤ (raiseWm a true (lastDH bs)).1.n.store.height
+    have h7' : (raiseWm a true (lastDH bs)).1.n.dataWm = max a.n.dataWm (lastDH bs) := h7
+    rw [h7', hf, hd]; omega
+  · rw [h]
+    obtain ⟨rem, pre, hi, _⟩ := submitLoop_loopInv true maxSubmitAttempts a (dataItems bs) script []
+    simp only [iterOf]
+    rw [hi.frame.height]
+    rcases hi.wmFrom with e | ⟨l, hl, e⟩
+    · have e' : (submitLoop true maxSubmitAttempts a (dataItems bs) script [] []).1.n.dataWm = a.n.dataWm := e
       omega
+    · have e' : (submitLoop true maxSubmitAttempts a (dataItems bs) script [] []).1.n.dataWm = l.height := e
+      obtain ⟨k, b, k1, k2, hb, hne, rfl⟩ := dataItems_mem hbs l (by rw [hi.split]; exact List.mem_append_left _ hl)
+      have := dataHeight_le_of_inv hinv (by omega) k2 hb
+      rw [e']; show dataHeight b ≤ _; omega
 
 end Submit
